@@ -58,9 +58,20 @@ CHECKS.update({
  "C19": ("statesim", "exploration", "A State over the pre-state disk with bundle A preloaded (with_bundle_prestate) and a State over the disk with A's changeset applied must answer every read equally, give equal execution results for the remaining groups, and both final changesets must lead to the reference post-state. A comes from the simulated history (destroyed, re-created, in-memory accounts), not from hand-written data.", E3_NOTE, E3_TECH, "5 C19"),
 })
 
+
+E4_NOTE = "No environment fault, schedule or interleaving exists at this surface; what is used from deterministic simulation is the reference-model oracle over seeded operation histories with shrinking and replay (model conformance only). API preconditions are respected. The same histories also run under Miri (interp-miri/) as part of the C25 check."
+CHECKS.update({
+ "C12": ("adtsim", "exploration", "Seeded histories of push, push_b256, pop, peek, dup, swap, exchange, push_slice (lengths 0..1024*32+64, biased to word boundaries and to the 1024 limit) and set on the real Stack against a Vec<U256> model: equal contents after every operation, underflow/overflow reported exactly when the model says so, and a failed operation leaves the stack unchanged.", E4_NOTE + " push_slice: the last short word is read as the big-endian number of the remaining bytes (unused high-order bytes zero), which is what the shipped unit test pins and PUSHn needs.", "deterministic simulation family used for model conformance: seeded operation histories against a sequential reference model (no fault dimension exists)", "5 C12"),
+ "C13": ("adtsim", "exploration", "Seeded histories of record_cost (incl. 0, remaining, remaining+1, u64::MAX), erase_cost of gas charged before, record_refund +/-, set_refund, set_final_refund (London / pre-London) and spend_all on the real Gas meter with limits 0, small, large and u64::MAX against three integers: remaining <= limit, failed charge changes nothing, successful charge reduces remaining by exactly the cost, spent = limit - remaining, final refund = min(refund, spent/q).", E4_NOTE, "deterministic simulation family used for model conformance: seeded operation histories against a sequential reference model (no fault dimension exists)", "5 C12/C13"),
+ "C25": ("interpsim+txsim+miri", "exploration", "E5: the interpreter alone on random byte strings, generated and byte-mutated programs and every shipped EOF container (and mutated copies) that revm's validation accepts, across calldata, gas limits 0..1M, 13 specs and the static flag, with a simulated Host failing at a drawn host-call index and a simulated caller answering every CALL/CREATE/EOFCREATE with a drawn legal outcome; invariants: no panic (debug assertions, overflow checks and revm's assume!/debug_unreachable! are live), the guarded instruction-pointer and free_context hooks never fire, remaining gas <= limit, stack <= 1024, at most gas_limit+2 steps (bounded liveness), a defined final result, FatalExternalError after a failed host call. E1: every monitor oracle on; any panic inside revm during a whole transaction, including under database faults at drawn call indices and inspector short-circuits, is a C25 violation. Miri: the same E5/E4 engines run under cargo miri (4 shards quick, 16 thorough) for undefined behaviour in stack.rs, shared_memory.rs, push, jumps, analysis.", "Trusted: SimHost, the simulated caller, the program generator, Miri. The C libraries and the full Evm cannot run under Miri: memory-safety evidence is limited to the interpreter crate with a simulated host. The input-space half of the property is ordinary seeded generation; what simulation adds is the fault dimension, the hooks as run-time invariants, the deterministic UB executor and the step bound.", "deterministic simulation: seeded programs x host-failure index x simulated sub-call outcomes with hook invariants and a step bound; Miri as deterministic executor for undefined behaviour", "5 C25"),
+})
+CHECKS["C11"] = ("txsim+adtsim",) + CHECKS["C11"][1:3] + ("Trusted: as for the other monitor-mode checks, plus the Vec<Vec<u8>> model of SharedMemory contexts (E4: new_context/free_context/resize_memory/set*/copy/slice histories; growth must cost 3w + w^2/512 and fail without change when gas is short).",) + CHECKS["C11"][4:]
+
 CHECKS["C06"] = ("journalsim+txsim",) + CHECKS["C06"][1:]
 
 ENGINES = [
+ {"name": "adtsim", "path": "sim/src/e4_adt.rs", "serves_properties": ["C11","C12","C13"], "kind_free_text": "E4: Stack / SharedMemory / Gas model conformance under seeded histories (also under Miri)"},
+ {"name": "interpsim", "path": "sim/src/e5_interp.rs", "serves_properties": ["C25"], "kind_free_text": "E5: interpreter + simulated Host failing on schedule; native and under Miri (interp-miri/)"},
  {"name": "statesim", "path": "sim/src/e3_state.rs", "serves_properties": ["C15","C16","C17","C18","C19"], "kind_free_text": "E3: State/BundleState pipeline over a simulated disk with merge/flush/crash schedule"},
  {"name": "twinsim", "path": "sim/src/e1_twin.rs", "serves_properties": ["C22","C28","C31"], "kind_free_text": "E1 twin modes: same history on two differently built systems"},
  {"name": "validsim", "path": "sim/src/e1_valid.rs", "serves_properties": ["C02"], "kind_free_text": "E1 validity mode: boundary-value transactions vs executable validity model, no-trace twin"},
@@ -99,7 +110,7 @@ def main():
             na.append({"property_id": p, "reason": "applicable to deterministic simulation (see DESIGN.md section 5) but its check is not built yet; not claimed"})
     m = {
         "version": 1,
-        "setup_cmd": "cd /verif/sim && CARGO_NET_OFFLINE=true cargo build --release --offline",
+        "setup_cmd": "cd /verif/sim && CARGO_NET_OFFLINE=true cargo build --release --offline && cd /verif/interp-miri && (MIRIFLAGS=-Zmiri-permissive-provenance CARGO_NET_OFFLINE=true cargo +nightly miri run --offline -- 0 0 || true)",
         "hooks": {
             "guard": "--cfg risechain_revm_verif",
             "enable": "RUSTFLAGS / .cargo/config.toml of /verif/sim passes --cfg risechain_revm_verif to every crate built from /repo",
